@@ -2,6 +2,7 @@
 // socket incarnation, in order per flow, discarded only for a stated reason.
 #include "core.hpp"
 #include "net.hpp"
+#include "models/queue_model.hpp"
 #include <deque>
 #include <functional>
 #include <set>
@@ -564,6 +565,31 @@ struct Udp
 		}
 	}
 
+	// "tail-drop in a queue" is a stated reason only when the queue really was full: every queue hop of the run is
+	// replayed against the shadow byte account of the queue model (datagrams carry no drop callback, so a drop is
+	// visible as an arrival that never leaves)
+	void check_queues()
+	{
+		for (auto const& ci : net.infos)
+			for (size_t k = 0; k < ci.specs.size(); ++k)
+			{
+				if (ci.specs[k].kind != HopSpec::Queue) continue;
+				std::vector<model::QPkt> a, d, n;
+				auto conv = [](PktRec const& r) {
+					model::QPkt q;
+					q.t = r.t; q.gseq = r.gseq; q.size = r.size(); q.droppable = r.droppable(); q.has_drop_fun = r.has_drop_fun;
+					q.ident = r.phash ^ (uint64_t(r.payload) << 40) ^ (uint64_t(r.from_port) << 20) ^ r.seq; q.hops_left = r.hops_left;
+					return q;
+				};
+				for (auto const& r : ci.probes[k]->log) a.push_back(conv(r));
+				for (auto const& r : ci.probes[k + 1]->log) d.push_back(conv(r));
+				model::QParams qp;
+				qp.bw = ci.specs[k].bw; qp.lat_ns = ci.specs[k].lat_ns; qp.cap = ci.specs[k].cap;
+				model::QVerdict const v = model::check_queue(qp, a, d, n, true, false, true, ci.label + ".q" + std::to_string(k));
+				if (!v.ok) fail("udp.lost.queue_not_full", "a datagram vanished at a queue that had room for it (or the queue altered its traffic): " + v.cls + ": " + v.detail);
+			}
+	}
+
 	void go()
 	{
 		net.ctx = &ctx;
@@ -589,6 +615,7 @@ struct Udp
 		sim->run();
 		if (!ctx.violated) drain_all();
 		if (!ctx.violated) account_losses();
+		if (!ctx.violated && steps <= 600000) check_queues();
 		uint64_t const deliv = ctx.cnt.count("delivered") ? ctx.cnt["delivered"] : 0;
 		ctx.nontrivial = deliv > 0 && (ctx.cnt.count("close") || ctx.cnt.count("truncating_receive") || ctx.cnt.count("discarded_tail_drop") || ctx.cnt.count("burst"));
 		ctx.sim_ns = now_ns();
